@@ -342,4 +342,62 @@ Section Cap.
       apply IH. intros x Hx. apply Hl. right. exact Hx. }
     rewrite <- (G (rev (xe_lay d))) by (intros ip H; apply in_rev; exact H). rewrite map_rev. reflexivity.
   Qed.
+
+  (* ---------- (d) no superseded bodies; /Root resolves to a non-free entry ---------- *)
+  Lemma xa_old_regions : forall (fuel : nat),
+    flat_map (fun ke : N * xentry =>
+      match snd ke with
+      | XInUse off gen =>
+          match lookup_x (fst ke) XR with
+          | Some (XInUse off' _) => if off' =? off then [] else
+              match parse_indirect fuel total out off (fun _ => None) with
+              | inl (Some o) => [(off, so_end o)]
+              | _ => []
+              end
+          | _ =>
+              match parse_indirect fuel total out off (fun _ => None) with
+              | inl (Some o) => [(off, so_end o)]
+              | _ => []
+              end
+          end
+      | _ => []
+      end) (rev XR) = [].
+  Proof.
+    intros fuel. apply flat_map_nil. apply Forall_forall. intros [k e] Hke. apply in_rev in Hke. cbn [fst snd].
+    destruct e as [a b | off g | a b]; try reflexivity.
+    rewrite (lookup_x_in k (XInUse off g) XR xa_XR_nodup Hke), N.eqb_refl. reflexivity.
+  Qed.
+
+  Lemma xa_tab_nofree : forall n, ~ In (n, XsFree) tab.
+  Proof.
+    intros n H. unfold tab, L in H. rewrite xs_L_eq in H. cbn [xs_l_table] in H. rewrite (xe_tab_eq d) in H. apply in_flat_map in H.
+    destruct H as [[it q] [_ He]]. cbn [fst snd] in He. destruct it as [x | k]; cbn [xs_item_entries In] in He.
+    - destruct He as [He | []]. discriminate.
+    - apply in_app_or in He. destruct He as [He | [He | []]]; [| discriminate].
+      apply (xs_index_entries_in (d_objects d) (xs_P d) _ (xs_srenf d)) in He. destruct He as [j [m [_ [_ He]]]]. discriminate.
+  Qed.
+
+  Lemma xa_root : exists rn e, dict_get (xp_xref_dict d) n_Root = Some (SpRef rn 0) /\ lookup_x rn XR = Some e
+                               /\ (forall a b, e <> XFree a b).
+  Proof.
+    destruct W as [Hc Hobjs Htr Hst Hsb Hver Hids [r [ir [Hroot [Hfr Hnn]]]] Hsize [Hnd [Hnoid Hdk]] Hnoprev Hnoxs].
+    exists (ren r), (snd (xa_g d (ren r))).
+    assert (Hrr : In r (roots_of d)) by (apply (root_in_roots d r Hroot)).
+    pose proof (xq_roots_numbered d r Hrr) as Hpos. pose proof (xs_renf_lt d r) as Hlt. fold ren in Hpos, Hlt.
+    split; [| split].
+    - apply dict_get_in; [apply xk_dict_nodup; assumption|]. unfold xp_xref_dict. cbv zeta. apply in_or_app. left.
+      replace (SpRef (ren r) 0) with (to_pobj (d_objects d) (xs_l_ren (xs_L d)) (ORef r))
+        by (cbn [to_pobj]; rewrite xs_L_eq; reflexivity).
+      apply xk_pdict_in; [| exact Hnn]. unfold xp_xref_entries. apply in_or_app. right.
+      apply find_some in Hroot. destruct Hroot as [Hr _]. apply in_map_iff. exists (k_Root, ORef r). split; [reflexivity | exact Hr].
+    - apply lookup_x_in; [exact xa_XR_nodup|]. unfold XR, L. rewrite xa_XR_form. right. apply in_or_app. left.
+      replace (ren r, snd (xa_g d (ren r))) with (xa_g d (ren r)) by reflexivity.
+      apply in_map. apply xn_range_in. rewrite xs_L_eq. cbn [xs_l_xref_id]. lia.
+    - intros a b. cbn [xa_g snd]. fold L tab.
+      destruct (xs_numbering_bijection_lemma d xa_closed) as [_ [_ Hcov]]. fold L tab in Hcov.
+      assert (Hk : In (ren r) (map fst tab)) by (apply Hcov; unfold L; rewrite xs_L_eq; cbn [xs_l_xref_id]; lia).
+      apply in_map_iff in Hk. destruct Hk as [[n e] [En Hin]]. cbn [fst] in En. subst n.
+      rewrite (xs_lookup_ent_nodup tab (ren r) e xa_tab_nodup Hin).
+      destruct e; cbn [xs_to_xentry]; try discriminate. exfalso. apply (xa_tab_nofree (ren r)). exact Hin.
+  Qed.
 End Cap.
